@@ -25,9 +25,10 @@ pub fn alg_from(s: &str) -> Algorithm {
     }
 }
 
-pub const STACKS: [&str; 10] = [
+pub const STACKS: [&str; 11] = [
     "none",
     "mutref",
+    "replace_ref",
     "nofinish",
     "replace_nofinish",
     "replace_nofinish_nr",
@@ -101,6 +102,12 @@ where
             let mut d = Rec::new(c.fail_at);
             let mut r = &mut d;
             run_alg(c, &mut r, old, new)
+        }
+        "replace_ref" => {
+            // Replace over a hook handed over by reference: replace and finish go through `&mut D`
+            let mut r = Rec::new(c.fail_at);
+            let mut d = Replace::new(&mut r);
+            run_alg(c, &mut d, old, new)
         }
         "nofinish" => {
             let mut d = Rec::new(c.fail_at);
